@@ -359,7 +359,14 @@ func (in *c05Injector) inject() {
 				becameConnected = true
 			}
 		}
-		if pre.Selected != post.Selected || becameConnected || pre.NPairsEv != post.NPairsEv {
+		becameFailed := false
+		for i := pre.NStates; i < len(seq); i++ {
+			if seq[i].State == ice.ConnectionStateFailed {
+				becameFailed = true // the failure deadline ran out: the selection is released with it
+			}
+		}
+		selectionMoved := pre.Selected != post.Selected && !(becameFailed && post.Selected == "")
+		if selectionMoved || becameConnected || pre.NPairsEv != post.NPairsEv {
 			diffs = []string{fmt.Sprintf("selected %q -> %q, state callbacks %d -> %d, pair callbacks %d -> %d", pre.Selected, post.Selected, pre.NStates, post.NStates, pre.NPairsEv, post.NPairsEv)}
 		}
 	}
